@@ -5,7 +5,16 @@
 // After every op the complete state is printed (doubles as bit patterns, including every example's
 // varsum).  An independent oracle recomputes tables / simplex constraint / gradient / varsum and appends
 // ` !oracle <tag>`.
+// everything the header needs is included first, so that the access override touches QpMcSimplexDecomp.h only
+// (it exposes BiasSolverSimplex::performBiasUpdate, a private member, to a subclass)
+#include <shark/Algorithms/QP/QpSolver.h>
+#include <shark/Algorithms/QP/QpSparseArray.h>
+#include <shark/Algorithms/QP/Impl/AnalyticProblems.h>
+#include <shark/Core/Timer.h>
+#include <shark/Data/Dataset.h>
+#define private protected
 #include <shark/Algorithms/QP/QpMcSimplexDecomp.h>
+#undef private
 #include <shark/Algorithms/QP/QpSolver.h>
 #include "common.hpp"
 #include <cfenv>
@@ -141,6 +150,11 @@ struct Probe: public QpMcSimplexDecomp<SynthMatrix>{
 	}
 };
 
+struct BiasProbe: public BiasSolverSimplex<SynthMatrix>{
+	BiasProbe(QpMcSimplexDecomp<SynthMatrix>* p): BiasSolverSimplex<SynthMatrix>(p){}
+	void update(RealVector const& step, QpSparseArray<double> const& nu){ this->performBiasUpdate(step, nu); }
+};
+
 struct Session{
 	std::unique_ptr<SynthMatrix> km;
 	std::unique_ptr<Probe> prob;
@@ -195,7 +209,7 @@ bool c16SimplexOp(std::vector<std::string> const& t, std::string& out){
 		return true;
 	}
 	if(op != "xsmo" && op != "xkillex" && op != "xdeactvar" && op != "xshrink" && op != "xunshrink" && op != "xadddelta"
-		&& op != "xlabel" && op != "xselect" && op != "xkkt" && op != "xsolve") return false;
+		&& op != "xlabel" && op != "xselect" && op != "xkkt" && op != "xsolve" && op != "xbiasupd") return false;
 	if(!S.prob || !parseInts(t, 1, a)){ out = "bad-op"; return true; }
 	Probe& p = *S.prob;
 	std::string pre, stopOrc;
@@ -246,6 +260,14 @@ bool c16SimplexOp(std::vector<std::string> const& t, std::string& out){
 			if(!(p.checkKKT() < stop.minAccuracy)) stopOrc += " !oracle stopped-not-kkt";
 		}else if(prop.type != QpMaxIterationsReached) stopOrc += " !oracle stop-type";
 		if(prop.iterations > stop.maxIterations) stopOrc += " !oracle iterations-exceed-limit";
+	}else if(op == "xbiasupd"){
+		// the real performBiasUpdate: bias step -> change of the linear part (and of the gradient)
+		std::size_t classes = S.nu.width();
+		if(a.size() != 2 * classes){ out = "bad-op"; return true; }
+		RealVector step(classes);
+		for(std::size_t c = 0; c != classes; ++c) step(c) = shiftVal(a[2*c], a[2*c+1]);
+		BiasProbe bp(&p);
+		bp.update(step, S.nu);
 	}else{ out = "bad-op"; return true; }
 	if(std::fetestexcept(FE_INEXACT)) S.exact = false;
 	std::string orc = p.oracle(S.K0, S.labels0, S.M, S.C, true) + stopOrc;
